@@ -522,3 +522,66 @@ func (p CPath) dependsOnField(occs []OccPos, at int, ctx *FCtx, v ssa.Value, roo
 	}
 	return false
 }
+
+// resolvesThrough: v (of context ctx), followed along the path through phis,
+// cells, helper parameters and helper results, passes through target.
+func (p CPath) resolvesThrough(ctx *FCtx, v, target ssa.Value) bool {
+	for i := 0; i < 64; i++ {
+		if v == target {
+			return true
+		}
+		nv, nc, ok := p.stepIn(ctx, v)
+		if !ok || nv == v {
+			return false
+		}
+		v, ctx = nv, nc
+	}
+	return false
+}
+
+// structAt: the content of the struct-typed location (root, sel) as of occurrence
+// at, read off the stores on the path: the last whole-value store (a composite
+// literal, or the zero value) overlaid with the field assignments made after
+// it. `x = T{A: 1, B: 2}` and `x = T{}; x.A = 1; x.B = 2` give the same map.
+// Fields never assigned since the whole-value store are absent (zero).
+// ok=false when the path made no whole-value store before at (the earlier
+// content is unknown) or stored a value that is not a literal.
+func (p CPath) structAt(occs []OccPos, at int, root ssa.Value, sel string) (map[string]ssa.Value, bool) {
+	out := map[string]ssa.Value{}
+	pre := sel + "."
+	for i := at - 1; i >= 0; i-- {
+		st, ok := occs[i].In.(*ssa.Store)
+		if !ok {
+			continue
+		}
+		a := p.Upto(occs[i].Seg).APIn(occs[i].Ctx, st.Addr)
+		if a.Root != root {
+			continue
+		}
+		as := a.SelString()
+		switch {
+		case as == sel:
+			// whole value
+			if k, isK := st.Val.(*ssa.Const); isK && k.Value == nil {
+				return out, true
+			}
+			v := p.Upto(occs[i].Seg).ResolveIn(occs[i].Ctx, st.Val)
+			f, _, isLit := complitFields(v)
+			if !isLit {
+				return out, false
+			}
+			for n, fv := range f {
+				if _, have := out[n]; !have {
+					out[n] = fv
+				}
+			}
+			return out, true
+		case strings.HasPrefix(as, pre):
+			n := strings.TrimPrefix(as, pre)
+			if _, have := out[n]; !have {
+				out[n] = st.Val
+			}
+		}
+	}
+	return out, false
+}
